@@ -3,10 +3,12 @@
 package c20
 
 import (
+	"bufio"
 	"context"
 	"fmt"
 	"io"
 	"log/slog"
+	"net"
 	"net/http"
 	"net/http/httptest"
 	"slices"
@@ -101,6 +103,13 @@ type ReqSpec struct {
 	Header bool  `json:"header"`            // set a response header
 	NoBody bool  `json:"no_body"`
 	Logs   int   `json:"logs"` // records written through the context logger
+	// Hijack: 1 the handler takes over the connection through
+	// w.(http.Hijacker), 2 through http.NewResponseController(w), and writes
+	// its answer to the connection itself (protocol upgrades, proxies).
+	Hijack int `json:"hijack,omitempty"`
+	// Flushes: how many times the handler flushes (through a response
+	// controller) after writing.
+	Flushes int `json:"flushes,omitempty"`
 }
 
 // Act is one step of the harness script.
@@ -162,12 +171,37 @@ func (h *recHandler) WithGroup(string) slog.Handler { return h }
 // 1xx codes (other than 101) do not finalise the response; the first other
 // code does; a Write without WriteHeader implies 200.
 type sink struct {
-	hdr   http.Header
-	info  []int
-	Code  int
-	final bool
-	Body  strings.Builder
+	hdr      http.Header
+	info     []int
+	Code     int
+	final    bool
+	Body     strings.Builder
+	flushes  int
+	hijacks  int
+	hijacked strings.Builder // what was written to the hijacked connection
 }
+
+// Flush and Hijack give the sink the optional interfaces of a real server's
+// response writer (reachable through Unwrap / a response controller).
+func (s *sink) Flush() { s.flushes++ }
+
+func (s *sink) Hijack() (net.Conn, *bufio.ReadWriter, error) {
+	s.hijacks++
+	if s.hijacks > 1 {
+		return nil, nil, http.ErrHijacked
+	}
+	c := &sinkConn{s: s}
+	return c, bufio.NewReadWriter(bufio.NewReader(strings.NewReader("")), bufio.NewWriter(c)), nil
+}
+
+// sinkConn is the "connection" of one sink.
+type sinkConn struct {
+	net.Conn
+	s *sink
+}
+
+func (c *sinkConn) Write(b []byte) (int, error) { return c.s.hijacked.Write(b) }
+func (c *sinkConn) Close() error                { return nil }
 
 func newSink() *sink { return &sink{hdr: http.Header{}} }
 
@@ -256,9 +290,37 @@ func checkBatch(c BatchCase) error {
 				l.Error("inside", "id", id, "k", k)
 			}
 		}
+		if spec.Hijack > 0 {
+			var conn net.Conn
+			var herr error
+			if spec.Hijack == 1 {
+				hj, isHJ := w.(http.Hijacker)
+				if !isHJ {
+					fail("request %s: the response writer given to the handler is not an http.Hijacker", id)
+					return
+				}
+				conn, _, herr = hj.Hijack()
+			} else {
+				conn, _, herr = http.NewResponseController(w).Hijack()
+			}
+			if herr != nil {
+				fail("request %s: Hijack failed: %v", id, herr)
+				return
+			}
+			_, _ = io.WriteString(conn, "hijacked-"+id)
+			_ = conn.Close()
+			return
+		}
 		if spec.Header {
 			w.Header().Set("X-Resp", "resp-"+id)
 		}
+		defer func() {
+			for k := 0; k < spec.Flushes; k++ {
+				if ferr := http.NewResponseController(w).Flush(); ferr != nil {
+					fail("request %s: Flush failed: %v", id, ferr)
+				}
+			}
+		}()
 		for _, info := range spec.Pre1xx {
 			w.WriteHeader(info)
 		}
@@ -353,6 +415,18 @@ func checkBatch(c BatchCase) error {
 		if spec.NoBody {
 			wantBody = ""
 		}
+		if spec.Hijack > 0 {
+			if got := rr.hijacked.String(); got != "hijacked-"+id || rr.Body.Len() != 0 || rr.hijacks != 1 {
+				return fmt.Errorf("client of request %s, whose handler hijacked the connection and wrote %q to it, received %q on its connection (%d Hijack calls reached its writer, body %q)", id, "hijacked-"+id, got, rr.hijacks, rr.Body.String())
+			}
+			continue
+		}
+		if rr.hijacked.Len() != 0 || rr.hijacks != 0 {
+			return fmt.Errorf("the connection of request %s, which did not hijack, was hijacked %d times and received %q", id, rr.hijacks, rr.hijacked.String())
+		}
+		if rr.flushes != spec.Flushes {
+			return fmt.Errorf("client of request %s saw %d flushes, the invocation flushed %d times", id, rr.flushes, spec.Flushes)
+		}
 		if rr.status() != wantCode || rr.Body.String() != wantBody {
 			return fmt.Errorf("client of request %s received status %d body %q, the invocation wrote status %d body %q", id, rr.status(), rr.Body.String(), wantCode, wantBody)
 		}
@@ -387,7 +461,7 @@ func checkBatch(c BatchCase) error {
 		case "finished":
 			per[i].finished++
 			wantCode := c.Reqs[i].Code
-			if wantCode == 0 {
+			if wantCode == 0 || c.Reqs[i].Hijack > 0 {
 				wantCode = 200
 			}
 			if lr.attrs["code"] != strconv.Itoa(wantCode) {
@@ -429,6 +503,15 @@ func checkBatch(c BatchCase) error {
 	if !mwEnabled {
 		vp.Class("batch:middleware-level-disabled-in-base-logger")
 	}
+	hj := 0
+	for _, r := range c.Reqs {
+		if r.Hijack > 0 {
+			hj++
+		}
+	}
+	if hj >= 2 {
+		vp.Class("batch:>=2-hijacking-requests")
+	}
 	if maxParked >= 2 && startedAfterFinish {
 		vp.Class("batch:nontrivial")
 		vp.NonTrivialStr("c20.batch", fmt.Sprintf("%+v", c))
@@ -445,11 +528,13 @@ var batchProp = vp.Register(vp.Prop[BatchCase]{
 		var acts []Act
 		for i := 0; i < n; i++ {
 			c.Reqs = append(c.Reqs, ReqSpec{
-				Pre1xx: rapid.SliceOfN(rapid.SampledFrom([]int{100, 102, 103}), 0, 2).Draw(t, "pre1xx"),
-				Code:   rapid.SampledFrom([]int{0, 0, 200, 201, 204, 301, 400, 404, 418, 500, 503, 599}).Draw(t, "code"),
-				Header: rapid.Bool().Draw(t, "header"),
-				NoBody: rapid.IntRange(0, 4).Draw(t, "nobody") == 0,
-				Logs:   rapid.IntRange(0, 2).Draw(t, "logs"),
+				Pre1xx:  rapid.SliceOfN(rapid.SampledFrom([]int{100, 102, 103}), 0, 2).Draw(t, "pre1xx"),
+				Code:    rapid.SampledFrom([]int{0, 0, 200, 201, 204, 301, 400, 404, 418, 500, 503, 599}).Draw(t, "code"),
+				Header:  rapid.Bool().Draw(t, "header"),
+				NoBody:  rapid.IntRange(0, 4).Draw(t, "nobody") == 0,
+				Logs:    rapid.IntRange(0, 2).Draw(t, "logs"),
+				Hijack:  rapid.SampledFrom([]int{0, 0, 0, 1, 2}).Draw(t, "hijack"),
+				Flushes: rapid.SampledFrom([]int{0, 0, 1, 3}).Draw(t, "flushes"),
 			})
 			acts = append(acts, Act{Kind: "start", Req: i}, Act{Kind: "release", Req: i})
 		}
@@ -564,6 +649,10 @@ var freeProp = vp.Register(vp.Prop[FreeCase]{
 	Check: checkFree,
 })
 
-func TestBatch(t *testing.T)  { vp.Run(t, batchProp) }
-func TestFree(t *testing.T)   { vp.Run(t, freeProp) }
-func TestReplay(t *testing.T) { vp.Replay(t) }
+func TestBatch(t *testing.T) { vp.Run(t, batchProp) }
+
+// TestBatchTwins: several independent middlewares (own loggers, own pools)
+// serving batches at the same time.
+func TestBatchTwins(t *testing.T) { vp.RunConcurrent(t, batchProp, 150, 3, 3) }
+func TestFree(t *testing.T)       { vp.Run(t, freeProp) }
+func TestReplay(t *testing.T)     { vp.Replay(t) }
